@@ -25,7 +25,7 @@ PROG = ["        NAM PROG", "        ORG $0E00", "START   LDA #1", "        RTS"
 PROG_BYTES = bytes([0x86, 0x01, 0x39])
 SRC_FILE = c07.fspec("ML", 40, "SRCFILE", pat="ramp7", load=0x3000, exec_=0x3005)
 
-TARGETS = ["absent", "empty", "cas1", "cas2", "dskblank", "dsk1", "rawbin", "bytes", "bytes553c", "casbig", "zeros", "all55", "allFF"]
+TARGETS = ["absent", "empty", "cas1", "cas2", "dskblank", "dsk1", "rawbin", "bytes", "bytes553c", "casbig", "zeros", "all55", "allFF", "casodd"]
 SWITCHES = ["bin", "cas", "dsk"]
 CLIS = ["asm", "fu.cas", "fu.dsk"]
 
@@ -54,6 +54,9 @@ def make_target(kind):
         return bytes([0x12, 0x12, 0x39])
     if kind == "bytes":
         return bytes((i * 37 + 11) & 0xFF for i in range(700)).replace(b"\x55\x3c", b"\x55\x3d")
+    if kind == "casodd":      # a well-formed tape whose second file name holds a byte that is not valid UTF-8 (e.g. saved with --name CAF\xc9)
+        return bytes(tape.write([dict(name="FIRST", type=2, dtype=0, load=0x1000, exec=0x1000, data=C.pattern(20, "ramp")),
+                                 dict(name="CAF\xc9", type=2, dtype=0, load=0x2000, exec=0x2000, data=C.pattern(30, "ramp7"))]))
     if kind == "zeros":
         return bytes(16)
     if kind == "all55":
@@ -190,8 +193,8 @@ def check_case(case):
                 # refused: the user must be told why
                 if not out.strip():
                     bad("target left alone without any message", "a message", "empty stdout")
-                elif not any(w in out.lower() for w in ("exist", "not of type", "target.out", "unable", "append")):
-                    bad("message does not say why nothing was written", "mentions the target or the reason", out.strip()[:100])
+                elif "saved to" in out.lower():
+                    bad("claims to have saved although nothing was written", "a message saying why nothing was written", out.strip()[:100])
             if changed and cl == "asm.uni" and sw != "bin":
                 bad("target damaged by a save that cannot succeed", "unchanged (the name cannot be stored) or a complete image",
                     "{} ({} bytes); stdout: {}".format(ka, len(after) if after is not None else None, out.strip()[-80:]))
